@@ -151,6 +151,25 @@ func metricHistMain(p MetricParams) {
 	if p.SkipUntil {
 		kinds = []string{"M", "Mbefore", "Ebefore", "Mat", "D"}
 	}
+	carry := map[uint16]map[string]int{}
+	sentOnCurrentStream := func(vb uint16) map[string]int {
+		var start uint64
+		for _, r := range c.RequestsOf("openstream") {
+			if r.Vb == vb && r.Err == nil && r.Finished != 0 {
+				start = r.Args[2]
+			}
+		}
+		sent := map[string]int{}
+		for _, pk := range c.Vb[vb].Log {
+			if isDoc(pk.Kind) && pk.Seq > start {
+				if p.SkipUntil && time.Unix(int64(pk.Cas/1000000000), 0).Before(skipT) {
+					continue // older than skipUntil: not accepted
+				}
+				sent[pk.Kind]++
+			}
+		}
+		return sent
+	}
 	seqnoFault := false
 	check := func() {
 		vrt.Quiesce()
@@ -224,20 +243,9 @@ func metricHistMain(p MetricParams) {
 			}
 			// events of each kind the server sent on the current stream of this vBucket (everything above
 			// the start position of the latest successful stream request; nothing is filtered here)
-			var start uint64
-			for _, r := range c.RequestsOf("openstream") {
-				if r.Vb == vb && r.Err == nil && r.Finished != 0 {
-					start = r.Args[2]
-				}
-			}
-			sent := map[string]int{}
-			for _, pk := range c.Vb[vb].Log {
-				if isDoc(pk.Kind) && pk.Seq > start {
-					if p.SkipUntil && time.Unix(int64(pk.Cas/1000000000), 0).Before(skipT) {
-						continue // older than skipUntil: not accepted
-					}
-					sent[pk.Kind]++
-				}
+			sent := sentOnCurrentStream(vb)
+			for k, n := range carry[vb] {
+				sent[k] += n // accepted on earlier streams of this session (before an in-session re-open)
 			}
 			for kind, mname := range map[string]string{"mutation": "cbgo_mutation_total", "deletion": "cbgo_deletion_total", "expiration": "cbgo_expiration_total"} {
 				want := float64(sent[kind])
@@ -278,7 +286,7 @@ func metricHistMain(p MetricParams) {
 	for step := 0; step < p.Depth; step++ {
 		nops := 9
 		if p.Faults {
-			nops = 11
+			nops = 13
 		}
 		op := vrt.Choose(nops, true, "op")
 		restore := func() {}
@@ -304,7 +312,39 @@ func metricHistMain(p MetricParams) {
 			hist = append(hist, fmt.Sprintf("rebalance(close-stream of vb%d fails, no end follows)", fvb))
 			ref.rebal++
 			ref.kinds = map[uint16]map[string]int{}
+			carry = map[uint16]map[string]int{}
 			e.Cons.Events = nil
+		case 11: // the first vBucket of the range has no active copy for the scrape of this step (fail-over in
+			// progress): the sequence-number answers do not cover it; its position gauges are still reported,
+			// its lag is computed against a high seqno of 0
+			vb := ref.rng[0]
+			old := c.VbMap
+			nm := make([][]int, len(old))
+			for i := range old {
+				nm[i] = append([]int{}, old[i]...)
+			}
+			nm[vb][0] = -1
+			c.VbMap = nm
+			oldHigh := c.Vb[vb].High
+			c.Vb[vb].High = 0
+			restore = func() { c.VbMap = old; c.Vb[vb].High = oldHigh }
+			hist = append(hist, fmt.Sprintf("no-active-copy(vb%d)", vb))
+		case 12: // a transient end of the first vBucket of the range and the library's own re-open: same session,
+			// the counters go on
+			vb := ref.rng[0]
+			before := sentOnCurrentStream(vb)
+			if c.EndStream(vb, gocbcore.ErrSocketClosed) {
+				vrt.Sleep(2 * time.Second)
+				vrt.Quiesce()
+				c.WaitIdle()
+				if carry[vb] == nil {
+					carry[vb] = map[string]int{}
+				}
+				for k, n := range before {
+					carry[vb][k] += n
+				}
+			}
+			hist = append(hist, fmt.Sprintf("transient-end+re-open(vb%d)", vb))
 		case 10: // the high-seqno request of the next scrape is answered with an error (after progress on the server)
 			vb := ref.rng[0]
 			s := c.Vb[vb].High + 1
@@ -378,6 +418,7 @@ func metricHistMain(p MetricParams) {
 				ref.rng = [2]uint16{2, 3}
 			}
 			ref.kinds = map[uint16]map[string]int{} // new observers: counters restart with the session
+			carry = map[uint16]map[string]int{}
 			e.Cons.Events = nil
 		case 8: // two requests for the same numbering back to back: one rebalance happens, one is counted
 			publishInfo(e, ref.member[0], ref.member[1])
@@ -390,6 +431,7 @@ func metricHistMain(p MetricParams) {
 			hist = append(hist, "rebalance-requested-twice")
 			ref.rebal++
 			ref.kinds = map[uint16]map[string]int{}
+			carry = map[uint16]map[string]int{}
 			e.Cons.Events = nil
 		case 7: // the server's high seqno as seen by the next scrape drops below / jumps above the position
 			vb := ref.rng[0]
